@@ -46,22 +46,23 @@ Proof. exact navigate_escape_rejected. Qed.
 Theorem C14_navigate_total : forall cur rel, navigate cur rel <> RPanic /\ navigate cur rel <> RFuel.
 Proof. exact navigate_no_panic. Qed.
 
-(* `<std>/` paths: passed verbatim to the file server (where the embedded table is consulted first) and never
+(* `<std>/` paths: passed verbatim to the file server (which answers them from the embedded table alone: C14_std_embedded_only) and never
    containing `..`; rejected otherwise *)
 Theorem C14_std : forall cur rel, is_std_path rel = true ->
   (navigate cur rel = RErr /\ existsb (fun c => text_eqb c dotdot) (components rel) = true) \/
   (navigate cur rel = ROk rel /\ forallb (fun c => negb (text_eqb c dotdot)) (components rel) = true).
 Proof. exact navigate_std. Qed.
 
-(* finding F47: the real file server falls through to the disk for a `<std>/` name missing from the table *)
-Theorem C14_std_lookup_refuted : exists (std : list (text * unit)) disk name,
-  is_std_path name = true /\ assoc name std = None /\ real_lookup std disk name <> None.
-Proof. exact std_lookup_refuted. Qed.
+(* `<std>/` names only ever name the embedded library: whatever is on disk (for instance a real directory
+   called `<std>`), the real file server answers them from the embedded table alone *)
+Theorem C14_std_embedded_only : forall (A : Type) (std : list (text * A)) disk name,
+  is_std_path name = true -> real_lookup std disk name = assoc name std.
+Proof. exact std_lookup_embedded_only. Qed.
 
-(* outside the embedded table the file server returns the content on disk verbatim: what incbin & co. slice
-   (C14_incbin ...) are the bytes on disk.  Tied to FileServerReal::get_bytes by the bytes-on-disk stream. *)
+(* every other name that is not in the table is answered with the content on disk, verbatim: what incbin & co.
+   slice (C14_incbin ...) are the bytes on disk.  Tied to FileServerReal by the bytes-on-disk stream. *)
 Theorem C14_real_lookup_verbatim : forall (A : Type) (std : list (text * A)) disk name,
-  assoc name std = None -> real_lookup std disk name = disk name.
+  is_std_path name = false -> assoc name std = None -> real_lookup std disk name = disk name.
 Proof. exact real_lookup_verbatim. Qed.
 
 (* ---------------------------------------------------------------- include expansion *)
